@@ -469,12 +469,12 @@ func features(c Case) []string {
 }
 
 var spec = pbt.Spec[Case]{
-	ID:   "C12",
-	Rule: "generated: predicates of the shortcut shapes - `col OP lit` for every operator with integer/negative/fractional/quoted literals and random spacing, and flat &&/|| chains of 2-4 - each paired with its parenthesised equivalent that both shortcut regexes reject; rows with every Go numeric width, NaN, +-Inf, values around 2^53 and around the literal, numeric-looking strings, bools, NULL, missing, slices, maps. oracle: condition.NewExprCondition(p).Evaluate(row) == NewExprCondition(paren(p)).Evaluate(row), no panic; one case in ten also through SQL WHERE (EmitSync), HAVING, OVER (WHEN p) of acc_count and GLOBAL WINDOW TRIGGER WHEN over last_value(col) (|| chains and single predicates), each as the same twin. counters: programs, disagreements_checked. non-trivial = some compared value is NULL/missing, of another kind than the literal, NaN/Inf or beyond 2^53; distinct by case hash",
+	ID:          "C12",
+	Rule:        "generated: predicates of the shortcut shapes - `col OP lit` for every operator with integer/negative/fractional/quoted literals and random spacing, and flat &&/|| chains of 2-4 - each paired with its parenthesised equivalent that both shortcut regexes reject; rows with every Go numeric width, NaN, +-Inf, values around 2^53 and around the literal, numeric-looking strings, bools, NULL, missing, slices, maps. oracle: condition.NewExprCondition(p).Evaluate(row) == NewExprCondition(paren(p)).Evaluate(row), no panic; one case in ten also through SQL WHERE (EmitSync), HAVING, OVER (WHEN p) of acc_count and GLOBAL WINDOW TRIGGER WHEN over last_value(col) (|| chains and single predicates), each as the same twin. counters: programs, disagreements_checked. non-trivial = some compared value is NULL/missing, of another kind than the literal, NaN/Inf or beyond 2^53; distinct by case hash",
 	Assumptions: []string{"parentheses do not change the meaning of a predicate in the general (expr-lang) evaluator", "in TRIGGER WHEN last_value(col) of a group stands for the current row's value of col"},
-	Gen:      genCase,
-	Run:      runCase,
-	Features: features,
+	Gen:         genCase,
+	Run:         runCase,
+	Features:    features,
 }
 
 func TestProp(t *testing.T)    { pbt.RunProp(t, spec) }
